@@ -614,3 +614,79 @@ def state_pipeline_table(ctx, rule):
                 'soupsieve/css_match.py (match_dir / find_bidi / match_indeterminate / match_default / match_placeholder_shown)',
                 'the HTML Standard (directionality of dir=auto skips only children whose dir attribute is in a defined state; a radio group is the '
                 'same-named radio buttons with the same form owner)')
+
+
+# attribute values have the shapes parsers store: strings, and lists of strings for the multi-valued attributes (class, accesskey,
+# dropzone everywhere; rel / rev on a and area; headers on td / th; accept-charset on form; sandbox on iframe); the content is
+# arbitrary (missing, empty, malformed).  Attributes that only attribute / class / id selectors read also carry the odd values the
+# bs4 API permits (None, numbers, bytes, nested lists).
+HOSTILE_TREE = [('#doctype', 'html'), ('#comment', 'x'), ('html', {'_label': 'root'}, [
+    ('head', {}, [('meta', {'http-equiv': 'content-language', 'content': 'en, fr'}, []), ('meta', {}, []), ('meta', {'http-equiv': 'Content-Language'}, []),
+                  ('meta', {'http-equiv': 'Content-Language', 'content': ''}, [])]),
+    ('body', {'dir': 'LTR', 'lang': 'en', 'class': [], 'accesskey': ['a', 'b']}, [
+        ('input', {'type': 'radio', 'name': '', 'checked': ''}, []), ('input', {'type': 'radio'}, []), ('input', {'type': 'RADIO', 'name': 'a b'}, []),
+        ('input', {'type': 'number', 'min': '1e', 'max': '', 'value': '5..'}, []), ('input', {'max': '5'}, []), ('input', {'type': '', 'min': '1'}, []),
+        ('input', {'type': 'date', 'min': 'x', 'max': '9999-99-99', 'value': '2020-13-45'}, []), ('input', {'type': 'date', 'min': '10000-01-01', 'value': '0000-00-00'}, []),
+        ('input', {'type': 'time', 'min': '23:00', 'max': '01:00', 'value': '24:61'}, []), ('input', {'type': 'week', 'min': '0999-W01', 'max': '2020-W54', 'value': '0000-W00'}, []),
+        ('input', {'type': 'month', 'min': '0000-00', 'value': '99999-12'}, []), ('input', {'type': 'datetime-local', 'min': '2020-02-30T25:00', 'value': 'T'}, []),
+        ('input', {'type': 'range', 'min': '-', 'max': '+', 'value': '.'}, []),
+        ('input', {'type': 'text', 'dir': 'auto', 'value': '', 'placeholder': ''}, []), ('input', {'type': 'text', 'dir': 'AUTO', 'value': '\u05d0'}, []),
+        ('input', {}, []), ('textarea', {'dir': 'auto', 'placeholder': 'x'}, [('#comment', 'c')]), ('bdi', {}, []), ('bdi', {'dir': 'bogus'}, [('#cdata', 'c')]),
+        ('form', {'accept-charset': ['a', 'b']}, []), ('option', {'selected': ''}, []), ('a', {'href': '', 'rel': ['x', 'y']}, []), ('area', {'href': 'u', 'rel': []}, []),
+        ('iframe', {'sandbox': ['s']}, []),
+        ('p', {'id': 'i', 'class': 'plain string', 'lang': 'de-CH', '_label': 'p', 'data-n': 5, 'data-none': None, 'data-b': b'x', 'data-l': ['a', ['b', 'c']]},
+         [('#cdata', 'c'), ('#pi', 'p'), ('b', {'_label': 'deep'}, [])]),
+        ('p', {'lang': '', 'class': ['a', 'b'], 'id': ''}, ['']), ('p', {'id': 7, 'class': [None, 'a', 3]}, []), ('progress', {'value': 'x'}, []), ('progress', {}, []),
+        ('select', {'multiple': '', 'required': ''}, [('optgroup', {'disabled': ''}, [('option', {}, [])]), ('option', {'value': ''}, [])]),
+        ('fieldset', {'disabled': ''}, [('legend', {}, [('input', {}, [])]), ('input', {'type': 'checkbox', 'indeterminate': ''}, []), ('button', {}, [])]),
+        ('div', {'contenteditable': '', 'dir': 'rtl'}, [('span', {'dir': 'auto'}, [])]), ('x-y', {}, []), ('svg', {}, [('a', {'href': 'z'}, [])]),
+        ('table', {}, [('td', {'headers': ['h1', 'h2']}, [])]),
+    ])]), 'tail text', ('extra', {'_label': 'extra', 'lang': 'x-'}, [])]
+
+
+def no_raise_table(ctx, rule, deep=False):
+    """Every pseudo-class and selector kind through select / filter / closest / match on a tree full of unusual but legal bs4
+    content - list-valued attributes everywhere, missing attributes, empty values, invalid dates, comments / CDATA / PIs, several
+    top-level nodes, an element detached from any tree - in several document flavours: no call raises."""
+    from ..e2e import batch_api
+    simple = sorted(ctx.consts.const('css_parser', 'PSEUDO_SIMPLE'))
+    sels = simple + [':dir(ltr)', ':dir(rtl)', ':lang(en)', ':lang("")', ':lang("*-ch")', ':nth-child(2)', ':nth-last-of-type(2n+1)', ':nth-child(-n+3 of p, input)',
+                     ':has(> *)', ':has(+ p)', ':not(:has(~ *))', ':-soup-contains(x)', ':-soup-contains-own("")', '[type=x]', '[class~=plain]', '[id=i]', '#i', '.plain',
+                     '[href]', '[lang|=de]', '[value^="5"]', '[content*=fr i]', '[data-n]', '[data-n="5"]', '[data-none]', '[data-b=x]', '[data-l~=a]', '[headers~=h1]', '[rel=x]', '.a', '#\\37 ', 'p > b', 'html|p', '*|*', '|p', ':is(:checked, :default, :indeterminate)',
+                     ':not(:enabled):not(:disabled)', ':in-range, :out-of-range', ':root > :first-child:last-child', 'p:empty, :empty']
+    kinds = ('html', 'html5', 'xhtml', 'xml') if deep else ('html', 'xhtml')
+    docs, reqs, meta = {}, [], []
+    ns = (('namespaces', {'html': 'http://www.w3.org/1999/xhtml'}),)
+    for kind in kinds:
+        doc, order, L = make_doc(HOSTILE_TREE, kind)
+        idx = {id(n_): i for i, n_ in enumerate(order)}
+        docs[kind] = (doc, order)
+        # a detached element with children, in the same flavour
+        ddoc, dorder, dL = make_doc([('p', {'_label': 'lone', 'class': ['a'], 'lang': 'x'}, [('b', {}, []), 't'])], kind)
+        dL['lone'].set('parent', None)
+        dL['lone'].set('previous_element', None)
+        dL['lone'].set('previous_sibling', None)
+        dL['lone'].set('next_sibling', None)
+        docs[kind + '-detached'] = (ddoc, dorder)
+        didx = {id(n_): i for i, n_ in enumerate(dorder)}
+        for s in sels:
+            for fn, key, tgt in (('select', kind, None), ('closest', kind, idx[id(L['deep'])]), ('filter', kind, idx[id(L['root'])]), ('match', kind, idx[id(L['extra'])]),
+                                 ('match', kind + '-detached', didx[id(dL['lone'])]), ('select', kind + '-detached', didx[id(dL['lone'])]),
+                                 ('closest', kind + '-detached', didx[id(dL['lone'])])):
+                reqs.append((key, fn, s, tgt, ns))
+                meta.append((kind, fn, s, key.endswith('detached')))
+    bad = None
+    raised = {}
+    for (kind, fn, s, det), got in zip(meta, batch_api(ctx, docs, reqs)):
+        if got[0] != 'ok':
+            raised.setdefault((s, got[1]), []).append(f'{fn} ({kind}{", detached element" if det else ""})')
+            if bad is None:
+                bad = (kind, fn, s, det, got[1])
+    rule.instance({'selectors': len(sels), 'flavours': list(kinds), 'api_calls': len(reqs), 'raising': {f'{k[0]} -> {k[1]}': v[:3] for k, v in list(raised.items())[:5]}},
+                  key='no-raise')
+    rule.obligation(bad is None)
+    if bad is not None:
+        kind, fn, s, det, exc = bad
+        rule.violation(f'{fn}() raises on `{s}`', 'soupsieve/css_match.py',
+                       f'{fn}({s!r}, ...) on the {kind} flavour of the tree of unusual content{" (target: an element without a parent)" if det else ""} '
+                       f'raises {exc}: matching a valid selector against any bs4 tree must answer, never raise')
